@@ -75,6 +75,7 @@ type Verifier struct {
 	qn          int
 	params      map[string]Value
 	freeDeref   map[string]Value // free variable name -> pointer value (cells)
+	invOld      map[*ECall]Value // closure invariants: old(...) occurrence -> unknown constant
 	checkedNil  map[string]bool
 	assumeCount int
 	trustedUsed map[string]bool
@@ -100,7 +101,7 @@ func newVerifier(p *Program, sr *SortReg, fn *ssa.Function, c *Contract) *Verifi
 		maxPaths:  4096,
 		closures:  map[string]*closureInfo{},
 		params:    map[string]Value{},
-		freeDeref: map[string]Value{},
+		freeDeref: map[string]Value{}, invOld: map[*ECall]Value{},
 		trustedUsed: map[string]bool{},
 	}
 	return v
@@ -396,7 +397,12 @@ func (v *Verifier) checkSite(st *State, in ssa.Instruction, kind, cond, desc str
 	if cond == "true" {
 		return
 	}
-	v.emit(st, "nopanic."+kind, v.siteLabel(in), cond, nil, desc, in)
+	if v.panicAllowed(kind) {
+		// the contract excludes this class of panic from the obligations of this function: recorded
+		v.notes = append(v.notes, fmt.Sprintf("assume no %s panic in %s (allowpanic %s): %s", kind, v.key, kind, desc))
+	} else {
+		v.emit(st, "nopanic."+kind, v.siteLabel(in), cond, nil, desc, in)
+	}
 	// after the check the execution continues only if the condition held
 	st.assume(cond)
 }
@@ -426,7 +432,21 @@ func (v *Verifier) checkNonNil(st *State, in ssa.Instruction, ptr Value) {
 // ---------- spec environment ----------
 
 func (v *Verifier) specEnv(st *State, vars map[string]Value) *SpecEnv {
-	return &SpecEnv{e: v.env, s: st, old: v.entry, vars: vars, pkg: v.pkgShort(), qn: &v.qn}
+	se := &SpecEnv{e: v.env, s: st, old: v.entry, vars: vars, pkg: v.pkgShort(), qn: &v.qn}
+	if v.entry != nil && (len(v.freeDeref) > 0 || len(v.addrNames) > 0) {
+		// captured variables and address-taken parameters: inside old(...) they have their entry value
+		ov := map[string]Value{}
+		for name, ptr := range v.freeDeref {
+			ov[name] = v.loadAddr(v.entry, ptr, nil)
+		}
+		for name := range v.addrNames {
+			if pv, ok := v.params[name]; ok {
+				ov[name] = pv
+			}
+		}
+		se.oldVars = ov
+	}
+	return se
 }
 
 // baseVars: parameters, free variables (dereferenced), address-taken locals (dereferenced).
@@ -603,6 +623,11 @@ func (v *Verifier) run() (res *FuncResult) {
 		for _, r := range v.contract.Requires {
 			st.assume(se.evalBool(r.E))
 		}
+		se.oldAbs = v.invOld
+		for _, inv := range v.contract.Invariants {
+			st.assume(se.evalBool(inv.E))
+		}
+		se.oldAbs = nil
 		for _, a := range v.contract.Assumes {
 			st.assume(se.evalBool(a.E))
 			v.assumeCount++
@@ -1034,9 +1059,12 @@ func (v *Verifier) havocLoop(li *loopInfo, st *State) {
 				mv, mp, vs, ks := v.env.mapNames(mt)
 				maps[mv] = arr("Int", arr(ks, vs))
 				maps[mp] = arr("Int", arr(ks, "Bool"))
-				maps["ML"] = arr("Int", "Int")
+				maps[v.env.mlName(mt)] = arr("Int", "Int")
 			case *ssa.Call:
 				if v.callMods(x.Common(), maps) {
+					if !all {
+						v.notes = append(v.notes, fmt.Sprintf("loop %d: no frame known for the call at %s (%s)", li.ordinal, v.posOf(x), x.Common().String()))
+					}
 					all = true
 				}
 			case *ssa.Defer:
@@ -1173,7 +1201,13 @@ func (v *Verifier) operand(st *State, x ssa.Value) Value {
 		return v.constVal(c)
 	case *ssa.Global:
 		// address of a global: represented as a global address
-		return Value{T: "G!" + shortPkg(c.Pkg.Pkg.Path()) + "." + c.Name(), Sort: "Int", GoT: c.Type(), Addr: &Addr{Kind: "global", Global: c.Name(), ElemT: c.Type().(*types.Pointer).Elem(), Obj: shortPkg(c.Pkg.Pkg.Path())}}
+		// (loads and stores go through Addr; as a pointer value it is an object allocated before entry)
+		ga := "GA!" + shortPkg(c.Pkg.Pkg.Path()) + "." + c.Name()
+		if !v.env.ctx.declared[ga] {
+			v.env.ctx.declConst(ga, "Int")
+			v.env.ctx.axiom("(and (> " + ga + " 0) (<= " + ga + " alloc!0))")
+		}
+		return Value{T: ga, Sort: "Int", GoT: c.Type(), Addr: &Addr{Kind: "global", Global: c.Name(), ElemT: c.Type().(*types.Pointer).Elem(), Obj: shortPkg(c.Pkg.Pkg.Path())}}
 	case *ssa.Function:
 		ref := "fn!" + mangle(funcKey(c))
 		v.env.ctx.declConst(ref, "Int")
@@ -1451,9 +1485,27 @@ func (v *Verifier) execInstr(st *State, in ssa.Instruction) {
 	case *ssa.Send:
 		v.notes = append(v.notes, "channel send at "+v.posOf(x)+" modelled as no-op on the modelled state")
 	case *ssa.Range:
-		v.unsupportedf("range over map/string at %s", v.posOf(x))
+		m := v.operand(st, x.X)
+		if _, ok := x.X.Type().Underlying().(*types.Map); !ok {
+			v.unsupportedf("range over string at %s", v.posOf(x))
+		}
+		st.regs[x] = m // the iterator stands for the map it ranges over
 	case *ssa.Next:
-		v.unsupportedf("range over map/string at %s", v.posOf(x))
+		if x.IsString {
+			v.unsupportedf("range over string at %s", v.posOf(x))
+		}
+		// Map iteration is modelled as an arbitrary sequence of entries of the map as it is at each
+		// step (any order, no promise that every entry is visited, none that the sequence ends):
+		// whatever holds for every such sequence holds for Go's iteration order.
+		m := v.operand(st, x.Iter)
+		mt := m.GoT.Underlying().(*types.Map)
+		ok := v.env.ctx.freshConst("next.ok", "Bool")
+		k := v.freshValue(st, "next.key", mt.Key())
+		v.assumeTypeFacts(st, k)
+		st.assume(implies(ok, and(not(eq(m.T, "0")), v.env.mapHas(st, m, k))))
+		val := v.env.mapGet(st, m, k)
+		v.assumeTypeFacts(st, val)
+		st.regs[x] = Value{Tuple: []Value{{T: ok, Sort: "Bool", GoT: types.Typ[types.Bool]}, k, val}, GoT: x.Type()}
 	case *ssa.Select:
 		v.unsupportedf("select at %s", v.posOf(x))
 	default:
@@ -1974,6 +2026,27 @@ func (v *Verifier) doReturn(st *State, x *ssa.Return) {
 		v.addInputs(o, st)
 	}
 	se.witness = nil
+	if v.fn.Parent() != nil {
+		// a closure's modifies clause is read in the state in which the higher-order callee was
+		// entered; a slice named there must therefore still be the same array, or one allocated
+		// since, whenever the closure runs again (induction over the callbacks)
+		for k, m := range v.contract.Modifies {
+			if m.Kind != "elems" {
+				continue
+			}
+			call := func(fn string, a Expr) Expr { return &ECall{Fn: &EIdent{Name: fn}, Args: []Expr{a}} }
+			cond := &EBinary{Op: "||",
+				L: &EBinary{Op: "==", L: call("base", m.E), R: call("old", call("base", m.E))},
+				R: call("fresh", m.E)}
+			v.emit(st, "frame.stable", fmt.Sprintf("%d", k+1), se.evalBool(cond), v.contract.Props, "slice named in the closure's modifies clause is the same array or a fresh one after the call", x)
+		}
+	}
+	seI := *se
+	seI.old = nil
+	seI.oldAbs = v.invOld
+	for _, inv := range v.contract.Invariants {
+		v.emit(st, "post", "inv."+inv.Label, seI.evalBool(inv.E), inv.Props, "closure invariant: "+inv.Text, x)
+	}
 	v.checkFrame(st, x)
 }
 
@@ -2085,8 +2158,8 @@ func (v *Verifier) modSets(c *Contract, se *SpecEnv) (sets map[string][]string, 
 			sorts[a] = arr("Int", arr(ks, vs))
 			sets[b] = append(sets[b], mv.T)
 			sorts[b] = arr("Int", arr(ks, "Bool"))
-			sets["ML"] = append(sets["ML"], mv.T)
-			sorts["ML"] = arr("Int", "Int")
+			sets[v.env.mlName(mt)] = append(sets[v.env.mlName(mt)], mv.T)
+			sorts[v.env.mlName(mt)] = arr("Int", "Int")
 		case "all":
 			// Type.field or pkg.Type.field
 			parts := strings.Split(m.Name, ".")
@@ -2103,6 +2176,15 @@ func (v *Verifier) modSets(c *Contract, se *SpecEnv) (sets map[string][]string, 
 			name := fieldMapName(t, f.Name())
 			sets[name] = []string{"*"}
 			sorts[name] = arr("Int", v.env.sr.sortOf(f.Type()))
+		case "allmap":
+			// contents of every map[any]*list.Element (the LRU index maps)
+			for _, n := range []string{"MV!Val!Int", "MP!Val!Int"} {
+				sets[n] = []string{"*"}
+			}
+			sorts["MV!Val!Int"] = arr("Int", arr("Val", "Int"))
+			sorts["MP!Val!Int"] = arr("Int", arr("Val", "Bool"))
+			sets["ML!Val!Int"] = []string{"*"}
+			sorts["ML!Val!Int"] = arr("Int", "Int")
 		case "allelems":
 			te, err := parseTypeString(m.Name)
 			if err != nil {
@@ -2233,10 +2315,26 @@ func (v *Verifier) checkFrame(st *State, in ssa.Instruction) {
 
 func (v *Verifier) cellMapEscapes(name string) bool { return true }
 
-func (v *Verifier) havocAll(st *State) {
+func (v *Verifier) havocAll(st *State) { v.havocAllExcept(st, nil) }
+
+// havocAllExcept havocs every heap map except the named ones (callback "preserves").
+func (v *Verifier) havocAllExcept(st *State, keep map[string]bool) {
 	names := map[string]string{}
 	for n, s := range st.hsort {
-		names[n] = s
+		if !keep[n] {
+			names[n] = s
+		}
+	}
+	if st.epoch == "" {
+		st.epochKeep = keep
+	} else {
+		nk := map[string]bool{}
+		for n := range keep {
+			if st.epochKeep[n] {
+				nk[n] = true
+			}
+		}
+		st.epochKeep = nk
 	}
 	for _, n := range sortedNames2(names) {
 		v.env.heapHavoc(st, n, names[n])
